@@ -111,7 +111,15 @@ func (r *Runner) SetThisValue(key string, value interface{}) {
 	r.this[key] = value
 }
 
-func (r *Runner) Resolve(ctx context.Context, v Expression) (interface{}, error) {
+func (r *Runner) Resolve(ctx context.Context, v Expression) (result interface{}, err error) {
+	// misuse inside a formula (calling a non-function, bad positions, invalid regexp,
+	// comparing composite values, ...) must surface as an error, never as a panic
+	defer func() {
+		if capture := recover(); capture != nil {
+			result = nil
+			err = fmt.Errorf("formula evaluation failed: %v", capture)
+		}
+	}()
 	res, err := r.resolve(ctx, v)
 	if err != nil {
 		return nil, err
